@@ -112,6 +112,15 @@ func c16GenAssertion(c *core.Ctx, o *so.Oracle) *saml.Assertion {
 	if r.Intn(6) == 0 {
 		a.AuthnStatements = nil
 	}
+	// the IdP's own session bound, on either side of any lifetime the SP may be configured with: the SP session
+	// lifetime is the configured one whatever the IdP says about its session
+	for i := range a.AuthnStatements {
+		if off := []time.Duration{0, 0, time.Minute, 3 * time.Hour, 30 * 24 * time.Hour, 20 * 365 * 24 * time.Hour, -time.Hour}[r.Intn(7)]; off != 0 {
+			t := fx.Now().Add(off)
+			a.AuthnStatements[i].SessionNotOnOrAfter = &t
+			c.Count("assertions_with_session_not_on_or_after")
+		}
+	}
 	return a
 }
 
